@@ -95,6 +95,40 @@ def check(ctx):
     ctx.paths("R09-b", rel, [("own", hand_pats), ("none", "self._owner_task = None"), ("wake", "$F.set_result($*A)")],
               step, (0, 0), at_exit, instance="release outcome")
 
+    # a queued waiter leaves the queue un-woken only if its own wait was cancelled (its future is cancelled): anything else - a pending
+    # cancellation *request* on its task, say, which a shield may make it ignore - discards a live waiter, which then blocks for ever
+    deq_ids, futs = set(), set()
+    for st, env in handoff:
+        dq = [(s, e) for s, e in ctx.sites(rel, "$T, $F = $V", env={"T": env["T"]})]
+        for s, e in dq:
+            deq_ids.add(id(s))
+            futs.add(u(e["F"]))
+    if len(futs) == 1:
+        fut1 = next(iter(futs))
+        dead = (F(f"{fut1}.cancelled()")[0], True)
+
+        def step_d(st, e, c):
+            if c.is_exc:
+                # (an EAFP take that raised dequeued nothing; what was dequeued before is judged by what is known at this point)
+                return False if e == "deq" and st and dead in c.facts_before else st
+            if e == "deq":
+                if st and dead not in c.facts_before:
+                    return Bad("a dequeued waiter is discarded (neither woken nor made owner) although its wait was not cancelled")
+                return True
+            if e == "wake":
+                return False
+            return st
+
+        def exit_d(kind, st, facts):
+            if st and dead not in facts:
+                return "release() ends having dequeued a waiter it neither woke nor found cancelled"
+            return None
+
+        ctx.paths("R09-b", rel, [("deq", lambda frag, node: frag is not None and id(frag) in deq_ids), ("wake", f"{fut1}.set_result($*A)")],
+                  step_d, False, exit_d, instance="only a waiter whose wait was cancelled is dropped from the queue")
+    else:
+        ctx.ob("R09-b", rel, "one dequeue form in release()", False, detail=f"dequeued futures go by {sorted(futs)}")
+
     # the non-owner guard dominates everything: first statement raises RuntimeError unless owner
     raises = ctx.sites(rel, "raise RuntimeError($*A)")
     ok = False
